@@ -497,6 +497,12 @@ func (m *Machine) visitInstr(fr *Frame, instr ssa.Instruction) continuation {
 		m.chanSend(fr, fr.get(instr.Chan).(*ChanV), fr.get(instr.X))
 
 	case *ssa.Store:
+		if se, ok := fr.get(instr.Addr).(*SymElem); ok {
+			// a store through a symbolically indexed element: fall back to forking over the index
+			i := m.concretize(fr, se.idx, "store index")
+			store(&se.elems[i], fr.get(instr.Val))
+			break
+		}
 		addr := fr.get(instr.Addr).(*Value)
 		if addr == nil {
 			m.runtimePanic(fr, "invalid memory address or nil pointer dereference (store)")
@@ -616,6 +622,16 @@ func (m *Machine) visitInstr(fr *Frame, instr ssa.Instruction) continuation {
 				m.runtimePanic(fr, "invalid memory address or nil pointer dereference (index address)")
 			}
 			a := (*x).(ArrayV)
+			if !idx.IsConst() && len(a) <= 1024 && constScalarTable(a) {
+				// a read-only lookup table indexed by a symbolic value: keep the index symbolic (an ite over the table is
+				// built at the load) instead of forking over every feasible index
+				i64 := m.tf.Resize(idx, 64, idxSigned)
+				if !m.Decide(fr, m.tf.Ult(i64, m.tf.Const(64, uint64(len(a))))) {
+					m.runtimePanic(fr, fmt.Sprintf("index out of range [symbolic] with length %d", len(a)))
+				}
+				fr.set(instr, &SymElem{elems: a, idx: i64})
+				break
+			}
 			i := m.indexInBounds(fr, idx, idxSigned, len(a))
 			fr.set(instr, &a[i])
 		default:
